@@ -13,6 +13,7 @@ def build_everything():
                 continue
             seen.add(b)
             build.build_world('hist', b, cfg['groups'], thorough=False)
+    build.build_world('hist', 'val-plain', ['core', 'io', 'conv'], thorough=False)  # C15's memcheck pass
     for b in ('rel-plain', 'dbg-asan'):
         build.build_world('golden', b, ['core', 'io'], thorough=False)
     try:
